@@ -1,8 +1,13 @@
 #!/bin/bash
-# runs every registered quick (or thorough) check and prints one line per property
+# runs every registered quick (or thorough) check - or the listed properties - and prints one line per property
+# usage: runall.sh [quick|thorough] [Cxx ...]
 tier=${1:-quick}
+shift
 cd "$(dirname "$0")"
-for p in $(bin/gosmt list); do
+mkdir -p out
+props="$*"
+[ -z "$props" ] && props=$(bin/gosmt list)
+for p in $props; do
   s=$(date +%s)
   bin/gosmt check --property $p --tier $tier > out/all_$p.txt 2>&1
   rc=$?
